@@ -14,10 +14,10 @@ EXPLANATION = (
     "taken from the object's own 'signed' assertion, key). C09.4: threshold default = unwrap_or(threshold, len(keys)); the counter "
     "starts at 0 and is incremented only on the passing edge of the per-key check; Ok(true) is reachable exactly for count >= threshold "
     "(ordering table over count <,=,> threshold); Ok(false) only after the key list is exhausted. C09.5: each verify_* wrapper returns "
-    "Ok only on the true edge of its has_* and Err otherwise. C09.6: writer and reader both use the 'signed' known value. Does not "
+    "Ok only on the true edge of its has_* and Err otherwise. C09.6: writer and reader both use the 'signed' known value. C09.8: every verify* entry point (and unseal) has each success exit dominated by a positive verdict on self or by the success edge of another verify* call on self. C09.9: add_signatures / add_signatures_opt are left folds of the single-signer writer over the accumulated envelope. Does not "
     "decide the signature schemes themselves ('under no other key').")
 TRUSTED = ['Signer::sign_with_options / Verifier::verify implement their schemes over the given message bytes']
-FLOORS = {'C09.1': 3, 'C09.2': 1, 'C09.3': 2, 'C09.4': 4, 'C09.5': 4, 'C09.6': 2}
+FLOORS = {'C09.1': 3, 'C09.2': 1, 'C09.3': 2, 'C09.4': 4, 'C09.5': 4, 'C09.6': 2, 'C09.8': 8, 'C09.9': 2}
 P1, P2, P3 = ('param', 1), ('param', 2), ('param', 3)
 
 
@@ -449,6 +449,99 @@ def check(ctx):
             ctx.fail('C09.5', ctx.site(hs), 'has-signature is %s' % fmt(rt), key='C09.5|has')
 
 
+def check_family(ctx):
+    """C09.8 every verify* entry point (and unseal) accepts only behind a positive verdict; C09.9 the multi-signer writers are
+    folds of the single-signer writer over the accumulated envelope."""
+    F = ctx.F
+    fam = [b for b in F.bodies if b.path.endswith(tuple('::' + n for n in ())) or (
+        ('signature_impl::<impl' in b.path or 'seal::<impl' in b.path) and '{closure' not in b.path and
+        (b.name.startswith('verify') or b.name == 'unseal') and b.path.endswith('Envelope>::' + b.name))]
+    fam_hash = {b.hash for b in fam}
+    ctx.need('C09.8', len(fam) >= 8, 'verify* entry points of the signature family')
+    def fam_call(x, recv=None):
+        x = strip_sites(x)
+        c = callee_of(x) if x[0] == 'call' else None
+        if c is None or c.best_hash not in fam_hash:
+            return False
+        return recv is None or strip_sites(detry(x[2][0])) == recv
+    def pos_atom(x):
+        x = strip_sites(detry(x))
+        if x[0] != 'call':
+            return False
+        nm = call_name(x)
+        if nm in ('has_some_signature_from_key', 'has_signature_from', 'has_signatures_from', 'has_signatures_from_threshold', 'is_signature_from_key',
+                  'is_verified_signature') and x[2] and strip_sites(x[2][0]) == P1:
+            return True
+        i = m_call(x, name='is_some')
+        if i is not None:
+            y = strip_sites(detry(i[0]))
+            return y[0] == 'call' and call_name(y) in ('has_some_signature_from_key_returning_metadata', 'has_signature_from_returning_metadata') and strip_sites(y[2][0]) == P1
+        return False
+    def neg_atom(x):
+        x = strip_sites(detry(x))
+        i = m_call(x, name='is_none')
+        if i is not None:
+            y = strip_sites(detry(i[0]))
+            return y[0] == 'call' and call_name(y) in ('has_some_signature_from_key_returning_metadata', 'has_signature_from_returning_metadata') and strip_sites(y[2][0]) == P1
+        return False
+    def meta_discr(x):
+        x = strip_sites(x)
+        if x[0] != 'discr':
+            return False
+        y = strip_sites(detry(x[1]))
+        return y[0] == 'call' and call_name(y) in ('has_some_signature_from_key_returning_metadata', 'has_signature_from_returning_metadata') and strip_sites(y[2][0]) == P1
+    def fam_branch(x):
+        x = strip_sites(x)
+        if x[0] != 'discr':
+            return False
+        a = m_call(x[1], name='branch', trait='Try')
+        return a is not None and fam_call(a[0], recv=P1)
+    for b in fam:
+        tb = TermBuilder(F, b)
+        acc = accept_sites(b, tb)
+        if not acc:
+            ctx.lost('C09.8', 'accept exit of ' + b.name)
+            continue
+        for bi, si, t in acc:
+            site = ctx.site(b, bi, si)
+            st = strip_sites(detry(t))
+            if fam_call(st):
+                ctx.ok('C09.8', site, '%s: the verdict is that of %s (tail delegation)' % (b.name, callee_of(st).name), nontrivial=False)
+                continue
+            done = False
+            for pred, passing, what in ((pos_atom, True, 'a positive signature test on self'), (neg_atom, False, 'a positive signature test on self'),
+                                        (meta_discr, 1, 'the matcher returning Some(metadata)'), (fam_branch, 0, 'the success edge of a verify* call on self')):
+                ok, info = guard_dominates(b, tb, [bi], pred, passing)
+                if ok:
+                    ctx.ok('C09.8', site, '%s: success exit only behind %s; %s' % (b.name, what, info))
+                    done = True
+                    break
+            if not done:
+                ctx.fail('C09.8', site, '%s can return success without a positive signature verdict on self (no has-signature / threshold / primitive test and no '
+                         'successful verify* call dominates this exit): returns %s' % (b.name, fmt(st)), key='C09.8|' + b.name)
+    # ---- C09.9 multi-signer writers
+    for name, single in (('add_signatures', 'add_signature'), ('add_signatures_opt', 'add_signature_opt')):
+        b = F.method1('Envelope', name)
+        if b is None:
+            ctx.lost('C09.9', 'Envelope::' + name)
+            continue
+        tb = TermBuilder(F, b)
+        ff = fold_form(F, b, tb)
+        if ff is None:
+            ctx.fail('C09.9', ctx.site(b), '%s is not a fold of %s over the signer list: %s' % (name, single, fmt(strip_sites(tb.return_term()))), key='C09.9|form|' + name,
+                     rule='FLOW/IDIOM-UNKNOWN')
+            continue
+        init, step, accm = ff
+        a = m_call(step, name=single, self_suffix='Envelope')
+        init_ok = init == P1 or (m_call(init, name='clone') is not None and strip_sites(m_call(init, name='clone')[0]) == P1)
+        if a is not None and strip_sites(a[0]) == accm and init_ok and not any(contains(x, lambda y: y == accm) for x in a[1:]):
+            ctx.ok('C09.9', ctx.site(b), '%s = fold(signers, self, |acc, k| %s(acc, k..)): every signature is added to the envelope carrying the earlier ones' % (name, single),
+                   sample=fmt(step))
+        else:
+            ctx.fail('C09.9', ctx.site(b), '%s does not add each signature to the accumulated envelope (start %s, step %s): earlier signatures are lost or the start is not self'
+                     % (name, fmt(init), fmt(step)), key='C09.9|' + name)
+
+
 def const_name(t):
     t = strip_sites(t)
     if t[0] == 'env':
@@ -463,6 +556,7 @@ _check_before_errflow = check
 
 def check(ctx):
     _check_before_errflow(ctx)
+    check_family(ctx)
     # C09.7 error discipline: no error of a fallible call is turned into "absent / false / default" outside the reviewed table
     from .. import errflow
     errflow.check(ctx, 'C09.7', ['src/extension/signature/signature_impl.rs', 'src/extension/signature/signature_metadata.rs'], 'signature family')
